@@ -253,19 +253,13 @@ class Scenario:
         return out
 
     def scheduler_selects(self, j, db=None):
-        """The job the scheduler may hand to schedule_job / job-private creating: taken from the WHERE clauses
-        of PoolScheduler.schedule_loop_body's queries — group in state 'running', job Ready, and either
-        always_run, or the group is not cancelled and the job's cancelled flag is clear."""
+        """The job the scheduler may hand to schedule_job / job-private creating: the candidate queries of
+        PoolScheduler.schedule_loop_body, extracted from pool.py and evaluated by sqlsym (vt/sqlsym/driverq.py)."""
+        from . import driverq
         db = db if db is not None else self.db
         out = False
-        for f in oracle.jobs(db):
-            grp_running = b_or(*[b_and(oracle.i_eq(f.group, g),
-                                       db.t['job_groups'].rows[(1, g)].present,
-                                       oracle.i_eq(db.t['job_groups'].rows[(1, g)].vals['state'].v, code('running')))
-                                 for g in oracle.groups(db)])
-            ok = b_and(f.present, f.in_state('Ready'), grp_running,
-                       b_or(f.always_run, b_and(b_not(f.group_cancelled), b_not(f.marked_cancelled))))
-            out = b_or(out, b_and(oracle.i_eq(j, f.j), ok))
+        for k in db.t['jobs'].rows:
+            out = b_or(out, b_and(oracle.i_eq(j, k[1]), driverq.scheduler_selects(db, k[1])))
         return out
 
     def op_schedule(self, tag):
@@ -325,17 +319,12 @@ class Scenario:
         return self.w.call('unschedule_job', [1, V(j), V(a), V(i), V(t1), V(reason)])
 
     def canceller_selects(self, j, db=None):
-        """canceller.py cancel_cancelled_ready_jobs_loop_body: group running, job Ready, not always_run, and the group is
-        cancelled or the job's cancelled flag is set."""
+        """canceller.py cancel_cancelled_ready_jobs_loop_body's candidate queries, extracted and evaluated by sqlsym."""
+        from . import driverq
         db = db if db is not None else self.db
         out = False
-        for f in oracle.jobs(db):
-            grp_running = b_or(*[b_and(oracle.i_eq(f.group, g), db.t['job_groups'].rows[(1, g)].present,
-                                       oracle.i_eq(db.t['job_groups'].rows[(1, g)].vals['state'].v, code('running')))
-                                 for g in oracle.groups(db)])
-            ok = b_and(f.present, f.in_state('Ready'), grp_running, b_not(f.always_run),
-                       b_or(f.group_cancelled, f.marked_cancelled))
-            out = b_or(out, b_and(oracle.i_eq(j, f.j), ok))
+        for k in db.t['jobs'].rows:
+            out = b_or(out, b_and(oracle.i_eq(j, k[1]), driverq.canceller_selects(db, k[1])))
         return out
 
     def op_cancel_ready(self, tag):
